@@ -73,6 +73,12 @@ struct TaskRunner {
     pool: ThreadPool,
     pager: SharedPager,
     coordinator: TransactionCoordinator,
+    /// Checkpoint gate. Every task (statement) runs under a shared hold; a checkpoint
+    /// (`Database::flush`, VACUUM) takes it exclusively. A checkpoint write-latches every
+    /// cached page while it holds the pager lock and then empties the cache, so it must not
+    /// overlap a statement, which takes the pager lock while holding page latches and keeps
+    /// working on the frames it has pinned.
+    gate: Arc<parking_lot::RwLock<()>>,
 }
 
 /// Handles task execution on a thread pool with per-task accessors.
@@ -90,8 +96,14 @@ impl SharedTaskRunner {
                 pool: ThreadPool::new(pool_size),
                 pager,
                 coordinator,
+                gate: Arc::new(parking_lot::RwLock::new(())),
             }),
         }
+    }
+
+    /// The checkpoint gate (see [`TaskRunner`]): hold it exclusively around a checkpoint.
+    pub(crate) fn gate(&self) -> Arc<parking_lot::RwLock<()>> {
+        Arc::clone(&self.inner.gate)
     }
 
     /// Spawns a task on the thread pool
@@ -99,6 +111,11 @@ impl SharedTaskRunner {
     where
         F: FnOnce(&TaskContext) -> Result<(), Box<dyn Error>> + Send + 'static,
     {
+        let gate = self.gate();
+        let task = move |ctx: &TaskContext| {
+            let _statement = gate.read();
+            task(ctx)
+        };
         let pager = self.inner.pager.clone();
         let coordinator = self.inner.coordinator.clone();
 
@@ -115,6 +132,12 @@ impl SharedTaskRunner {
     where
         F: FnOnce(&TaskContext) -> Result<(), BoxError> + Send + Sync + 'static,
     {
+        let gate = self.gate();
+        let task = move |ctx: &TaskContext| {
+            let _statement = gate.read();
+            task(ctx)
+        };
+
         #[cfg(feature = "verif")]
         if crate::verif::inline_tasks() {
             let ctx = TaskContext::new(self.inner.pager.clone(), self.inner.coordinator.clone());
@@ -148,6 +171,34 @@ impl SharedTaskRunner {
         F: FnOnce(&TaskContext) -> Result<T, BoxError> + Send + 'static,
         T: Send + 'static,
     {
+        self.run_gated(task, false)
+    }
+
+    /// Like [`Self::run_with_result`] for a task that checkpoints: it runs while no other
+    /// task does.
+    pub(crate) fn run_exclusive_with_result<F, T>(&self, task: F) -> Result<T, TaskError>
+    where
+        F: FnOnce(&TaskContext) -> Result<T, BoxError> + Send + 'static,
+        T: Send + 'static,
+    {
+        self.run_gated(task, true)
+    }
+
+    fn run_gated<F, T>(&self, task: F, exclusive: bool) -> Result<T, TaskError>
+    where
+        F: FnOnce(&TaskContext) -> Result<T, BoxError> + Send + 'static,
+        T: Send + 'static,
+    {
+        let gate = self.gate();
+        let task = move |ctx: &TaskContext| {
+            let (_statement, _alone) = if exclusive {
+                (None, Some(gate.write()))
+            } else {
+                (Some(gate.read()), None)
+            };
+            task(ctx)
+        };
+
         #[cfg(feature = "verif")]
         if crate::verif::inline_tasks() {
             let ctx = TaskContext::new(self.inner.pager.clone(), self.inner.coordinator.clone());
@@ -184,6 +235,11 @@ impl SharedTaskRunner {
         let task_count = tasks.len();
 
         for task in tasks {
+            let gate = self.gate();
+            let task = move |ctx: &TaskContext| {
+                let _statement = gate.read();
+                task(ctx)
+            };
             let tx = tx.clone();
             let pager = self.inner.pager.clone();
             let coordinator = self.inner.coordinator.clone();
@@ -222,6 +278,11 @@ impl SharedTaskRunner {
         let task_count = tasks.len();
 
         for (idx, task) in tasks.into_iter().enumerate() {
+            let gate = self.gate();
+            let task = move |ctx: &TaskContext| {
+                let _statement = gate.read();
+                task(ctx)
+            };
             let tx = tx.clone();
             let pager = self.inner.pager.clone();
             let coordinator = self.inner.coordinator.clone();
